@@ -67,6 +67,8 @@ Vs(p)    == SeqToSet(Obs.views[p])
 (* wb does not run the teardown: after a reset every route of the peer counts as gone *)
 St(v)    == IF cfg.mode = "wb" /\ ObsReset THEN "gone" ELSE v.st
 Named    == Ann(cfg.base) \cup Wd(cfg.base)
+(* what the message names AS RECEIVED (differs from Named only for shifted framing, see UpdateError) *)
+NamedRcv == NamedAsReceived(FS, cfg.base)
 NewViews == UNION {{<<p, v>> : v \in {w \in Vs(p) : St(w) = "new"}} : p \in AllPfx}
 Has2(r, k) == k \in DOMAIN r
 
@@ -88,7 +90,7 @@ C06_NeverWeaker == Judged => NeverWeakerFor(FS)
 TawRemovesAllFor(fs, excused) ==
   (/\ Lo(fs, Pt, Taw) = Withdraw \/ Obs.hand = "withdraw"
    /\ ~ObsReset
-   /\ NoNewFor(Ann(cfg.base))) => AllGone(Named \ excused)
+   /\ NoNewFor(Ann(cfg.base))) => AllGone(NamedRcv \ excused)
 C06_TawRemovesAll == Judged => TawRemovesAllFor(FS, {})
 
 (* no installed or propagated route carries an attribute that arrived malformed: for every faulted
@@ -144,34 +146,18 @@ C06_WellFormedNotPenalised ==
 
 ---------------------------------------------------------------------------
 (* KNOWN FINDINGS (predicates in UpdateError.tla, section "KNOWN FINDING predicates"): the weakened
-   invariants judge a message by the faults the pinned speaker is not known to ignore (FSU), excuse
-   the prefixes it is known not to parse, and tolerate the one reset / the one subcode that are
-   recorded findings.  Outside the predicates they coincide with the strict invariants. *)
+   invariants judge a message by the faults the pinned speaker is not known to ignore (FSU).
+   Outside the predicates they coincide with the strict invariants. *)
 IsMasked == Masked(FS, Pt, Taw)
 FSU      == Unmasked(FS, Pt, Taw)
-MaskedMissing == {TypeKey(f.a, f.k) : f \in {g \in FS \ FSU : g.k = "miss"}}
-MaskedDup == IsMasked /\ \E f \in FS : f.k = "dup"
 
 C06_NeverWeaker_KF   == Judged => NeverWeakerFor(FSU)
 (* a masked duplicate MP_REACH / MP_UNREACH: table.ProcessMessage uses the LAST one only *)
 MaskedMpDupPfx ==
   (IF IsMasked /\ Has(FS, "MP_REACH", "dup") THEN {p \in Ann(cfg.base) : ~IsV4(p)} ELSE {})
   \cup (IF IsMasked /\ Has(FS, "MP_UNREACH", "dup") THEN {p \in Wd(cfg.base) : ~IsV4(p)} ELSE {})
-C06_TawRemovesAll_KF == Judged => TawRemovesAllFor(FSU, UnparsedPfx(FS, cfg.base) \cup MaskedMpDupPfx)
-C06_NeverInstalledMalformed_KF ==
-  Judged => \A pv \in NewViews :
-     NotMalformed(IF MaskedDup THEN [pv[2] EXCEPT !.ndup = 0] ELSE pv[2], FSU)
-C06_MandatoryPresent_KF ==
-  Judged => \A pv \in NewViews : (Mandatory(pv[1]) \ MaskedMissing) \subseteq DOMAIN pv[2].attrs
+C06_TawRemovesAll_KF == Judged => TawRemovesAllFor(FSU, MaskedMpDupPfx)
 C06_MandatoryLocalPref_KF == KF_LocalPref(FS) \/ C06_MandatoryLocalPref
-C06_ResetOnlyIfCalledFor_KF ==
-  Judged => ((ObsReset \/ Obs.code >= 0) => (ResetJustified(FS, Pt, Taw) \/ KF_As4Agg(FS)))
-C06_Code_KF ==
-  (Judged /\ ObsReset) =>
-     /\ Obs.code >= 0
-     /\ <<Obs.code, Obs.sub>> \in OkCodes(FS, Pt, Taw)
-                                 \cup (IF KF_As4Agg(FS) \/ KF_OriginCode(FS) THEN {AttrList} ELSE {})
-C06_WellFormedNotPenalised_KF == KF_As4Agg(FS) \/ C06_WellFormedNotPenalised
 
 ---------------------------------------------------------------------------
 (* triage (always TRUE): one line per judged message that fails some strict invariant, naming the
@@ -186,11 +172,11 @@ StrictInv == [C06_MandatoryLocalPref |-> C06_MandatoryLocalPref, C06_NeverWeaker
               C06_WellFormedNotPenalised |-> C06_WellFormedNotPenalised]
 KFInv == [C06_MandatoryLocalPref |-> C06_MandatoryLocalPref_KF, C06_NeverWeaker |-> C06_NeverWeaker_KF,
           C06_TawRemovesAll |-> C06_TawRemovesAll_KF,
-          C06_NeverInstalledMalformed |-> C06_NeverInstalledMalformed_KF,
-          C06_MandatoryPresent |-> C06_MandatoryPresent_KF,
-          C06_ResetOnlyIfCalledFor |-> C06_ResetOnlyIfCalledFor_KF, C06_Code |-> C06_Code_KF,
+          C06_NeverInstalledMalformed |-> C06_NeverInstalledMalformed,
+          C06_MandatoryPresent |-> C06_MandatoryPresent,
+          C06_ResetOnlyIfCalledFor |-> C06_ResetOnlyIfCalledFor, C06_Code |-> C06_Code,
           C06_ResetRemovesAll |-> C06_ResetRemovesAll,
-          C06_WellFormedNotPenalised |-> C06_WellFormedNotPenalised_KF]
+          C06_WellFormedNotPenalised |-> C06_WellFormedNotPenalised]
 FailsOf(S) == {n \in DOMAIN S : ~S[n]}
 Triage == (Judged /\ FailsOf(StrictInv) # {}) =>
              PrintT("VPOUT " \o ToJson([triage |-> [id |-> cfg.id, strict |-> FailsOf(StrictInv),
@@ -199,7 +185,11 @@ Triage == (Judged /\ FailsOf(StrictInv) # {}) =>
 
 (* informational: the recorded handling class is the one the mechanism layer predicts (wb only) *)
 ClassName(c) == CASE c = None -> "none" [] c = Discard -> "discard" [] c = Withdraw -> "withdraw" [] OTHER -> "reset"
-Conf_Handling == (Judged /\ cfg.mode = "wb") => Obs.hand = ClassName(MechClass(FS, Pt, Taw, FALSE))
+(* shifted framing: whether the octets taken for NLRI parse (withdraw) or not (reset) depends on the
+   octets, which the abstract description does not carry *)
+Conf_Handling == (Judged /\ cfg.mode = "wb") =>
+                    \/ Obs.hand = ClassName(MechClass(FS, Pt, Taw, FALSE))
+                    \/ (Shifted(FS) /\ Obs.hand \in {"withdraw", "reset"})
 (* always TRUE: reports the mismatches in the triage pass instead of failing one by one *)
 TriageConf == Conf_Handling \/ PrintT("VPOUT " \o ToJson([conf |-> [id |-> cfg.id, hand |-> Obs.hand,
                                               mech |-> ClassName(MechClass(FS, Pt, Taw, FALSE))]]))
